@@ -425,8 +425,11 @@ func (e *Env) trVal(x Expr) Val {
 			}
 			pats = append(pats, ":pattern ("+strings.Join(ps, " ")+")")
 		}
+		qid := ":qid " + strings.ReplaceAll(strings.TrimPrefix(strings.SplitN(decl[0], " ", 2)[0], "("), "!", "_")
 		if len(pats) > 0 {
-			body = "(! " + body + " " + strings.Join(pats, " ") + ")"
+			body = "(! " + body + " " + strings.Join(pats, " ") + " " + qid + ")"
+		} else {
+			body = "(! " + body + " " + qid + ")"
 		}
 		q := "exists"
 		if x.Forall {
@@ -967,6 +970,12 @@ func (e *Env) trCall(x *Call) Val {
 		v, _ := argS(2)
 		t2 := ta
 		return Val{S: "(store " + a + " " + i + " " + v + ")", Ty: &t2}
+	case "fconst":
+		// fconst(like, v): the constant map / set of the same type as `like`
+		_, ta := argS(0)
+		v, _ := argS(1)
+		t2 := ta
+		return Val{S: "((as const " + vc.S.tySort(ta) + ") " + v + ")", Ty: &t2}
 	case "slen":
 		s, _ := argS(0)
 		return Val{T: tInt, S: "(slen " + s + ")"}
